@@ -25,7 +25,8 @@
 (***************************************************************************)
 EXTENDS Serial
 
-CONSTANTS FIXES   \* SUBSET {"F2", "F3", "F13"}
+CONSTANTS FIXES,  \* SUBSET {"F2", "F3", "F13", "F14"}
+          ENV     \* SUBSET {"crash", "fault"}: environment actions enabled
 
 VARIABLES reqs,   \* sequence of API requests, one per process (never changes)
           db0,    \* start database, a Data state (never changes)
@@ -115,19 +116,26 @@ Start(k) ==
         LET a == Apply(db, r) IN
         Finish(k, a.resp) /\ Commit(k, a.s) /\ UNCHANGED loc
 
-\* DELETE /allocations/{c}, second transaction: the rows read are deleted by id
-\* (rows written since then stay); no generation is touched
+\* DELETE /allocations/{c}, writing transaction: the rows read are deleted by id
+\* (rows written since then stay) and the consumer goes if it is left without
+\* allocations; no generation is touched.  Originally these were two
+\* transactions (F14): a failure between them left an error answer with the
+\* allocations already gone.
 DelRows(k) ==
-  LET r == reqs[k] IN
+  LET r == reqs[k]
+      \* every allocation write bumps the consumer generation, so an unchanged
+      \* generation means that the rows read are still the consumer's rows
+      d1 == IF r.c \in DOMAIN db.cons /\ db.cons[r.c].gen = loc[k].cgen[r.c]
+            THEN [db EXCEPT !.alloc = Without(@, {r.c})] ELSE db
+      d2 == IF r.c \in DOMAIN d1.cons /\ r.c \notin DOMAIN d1.alloc
+            THEN [d1 EXCEPT !.cons = Without(@, {r.c})] ELSE d1
+  IN
   /\ pc[k] = "delrows"
-  \* every allocation write bumps the consumer generation, so an unchanged
-  \* generation means that the rows read are still the consumer's rows
-  /\ Commit(k, IF r.c \in DOMAIN db.cons /\ db.cons[r.c].gen = loc[k].cgen[r.c]
-               THEN [db EXCEPT !.alloc = Without(@, {r.c})] ELSE db)
-  /\ pc' = [pc EXCEPT ![k] = "delcons"]
-  /\ UNCHANGED <<loc, resp>>
+  /\ IF "F14" \in FIXES
+     THEN Commit(k, d2) /\ Finish(k, Resp(204, "", NoBody))
+     ELSE Commit(k, d1) /\ pc' = [pc EXCEPT ![k] = "delcons"] /\ UNCHANGED resp
+  /\ UNCHANGED loc
 
-\* ... third transaction: the consumer goes if it has no allocations (now)
 DelCons(k) ==
   LET r == reqs[k] IN
   /\ pc[k] = "delcons"
@@ -304,11 +312,32 @@ Cleanup(k) ==
   /\ pc' = [pc EXCEPT ![k] = "done"]
   /\ UNCHANGED <<loc, resp>>
 
-Step(k) == Start(k) \/ DelRows(k) \/ DelCons(k) \/ ProvMain(k) \/ ReshapeRead(k) \/ ConsGet(k) \/ ConsIns(k)
+---------------------------------------------------------------------------
+\* environment
+
+\* the service process dies: nothing further happens for this request; the
+\* transaction in flight (transactions are atomic steps here) never commits
+Crash(k) ==
+  /\ "crash" \in ENV
+  /\ pc[k] \notin {"done", "dead"}
+  /\ pc' = [pc EXCEPT ![k] = "dead"]
+  /\ UNCHANGED <<db, loc, resp, hist>>
+
+\* a non-retryable database error in the transaction about to run: it has no
+\* effect; the request answers 500 after the clean-up of what it recorded
+Fault(k) ==
+  /\ "fault" \in ENV
+  /\ pc[k] \notin {"done", "dead", "cleanup"}
+  /\ ~(\E j \in Procs : resp[j].status = 500)          \* at most one fault per behaviour
+  /\ resp' = [resp EXCEPT ![k] = Resp(500, UN23(reqs[k]), NoBody)]
+  /\ pc' = [pc EXCEPT ![k] = IF loc[k].created = {} THEN "done" ELSE "cleanup"]
+  /\ UNCHANGED <<db, loc, hist>>
+
+Step(k) == Crash(k) \/ Fault(k) \/ Start(k) \/ DelRows(k) \/ DelCons(k) \/ ProvMain(k) \/ ReshapeRead(k) \/ ConsGet(k) \/ ConsIns(k)
            \/ ProvRead(k) \/ ClearRead(k) \/ AllocMain(k) \/ Cleanup(k)
 Next == (\E k \in Procs : Step(k)) /\ UNCHANGED <<reqs, db0>>
 
-Terminated == \A k \in Procs : pc[k] = "done"
+Terminated == \A k \in Procs : pc[k] \in {"done", "dead"}
 
 ---------------------------------------------------------------------------
 \* properties (evaluated in terminal states over the commit history)
@@ -357,9 +386,23 @@ FinalC12 == Terminated => C12_Inv(db)
 \* rejected requests answered with a client error, never a 5xx
 StatusesTx == \A k \in Procs : resp[k].status < 500
 
+\* C18 (single request): whatever the crash point, the database is the one
+\* before or the one after the request, apart from consumers without
+\* allocations, and the structural invariants hold (InvariantsTx)
+DropIdleTx(s) == [s EXCEPT !.cons = [c \in {d \in DOMAIN @ : d \in DOMAIN s.alloc} |-> @[c]]]
+CrashConsistent ==
+  Cardinality(Procs) = 1 =>
+     \/ DropIdleTx(db) = DropIdleTx(db0)
+     \/ DropIdleTx(db) = DropIdleTx(Apply(db0, reqs[1]).s)
+\* C17 (single request, non-retryable fault): clean failure or exactly once
+ExactlyOnceOrClean ==
+  (Terminated /\ Cardinality(Procs) = 1 /\ pc[1] = "done") =>
+     IF resp[1].status >= 400 THEN db = db0
+     ELSE db = Apply(db0, reqs[1]).s
+
 \* Refines: a request running alone computes exactly API!Apply
 Refines ==
-  (Terminated /\ Cardinality(Procs) = 1) =>
+  (Terminated /\ Cardinality(Procs) = 1 /\ pc[1] = "done" /\ resp[1].status # 500) =>
      LET a == Apply(db0, reqs[1]) IN
      /\ resp[1].status = a.resp.status /\ resp[1].code = a.resp.code
      /\ db = a.s
